@@ -60,6 +60,7 @@ type h2stream struct {
 	up       *UpRec
 	hdrSeen  bool
 	dataSeen int
+	hdrEnd   int64 // offset in our byte stream at which this stream's header block ends
 }
 
 // H2End is one end of an HTTP/2 connection with MOSN.
@@ -90,6 +91,7 @@ type H2End struct {
 	tableDirty   bool         // a table-size change of ours has not been followed by a header block from MOSN yet
 	nextID       uint32
 	msgs         int
+	sentTotal    int64 // bytes handed to the transport so far
 
 	Err      error
 	GoAway   bool
@@ -134,6 +136,7 @@ func (e *H2End) flush() {
 	}
 	b := append([]byte(nil), e.wbuf.Bytes()...)
 	e.wbuf.Reset()
+	e.sentTotal += int64(len(b))
 	if h2Trace {
 		for o := 0; o+9 <= len(b) && b[0] != 'P'; {
 			l := int(b[o])<<16 | int(b[o+1])<<8 | int(b[o+2])
@@ -420,10 +423,12 @@ func (e *H2End) message(st *h2stream) {
 
 // Credit is called by the world's credit events: every open stream whose window
 // is below what a sender could use gets one drawn grant, and so does the connection.
-func (e *H2End) Credit() {
+func (e *H2End) Credit() (granted bool) {
 	if e.Err != nil || e.Closed || e.Conn == nil {
-		return
+		return false
 	}
+	before := e.Grants
+	defer func() { granted = e.Grants > before }()
 	ch := e.S.Ch
 	grant := func() uint32 {
 		g := e.O.Grant[ch.Pick("net", "h2grant", len(e.O.Grant))]
@@ -487,6 +492,7 @@ func (e *H2End) Credit() {
 		e.Grants++
 	}
 	e.flush()
+	return
 }
 
 // OpenStreams: streams on which MOSN may still have DATA to send to us.
@@ -541,6 +547,7 @@ func (e *H2End) SendMessage(st *h2stream, fields []hpack.HeaderField, body []byt
 		_ = e.fr.WriteContinuation(st.id, k == len(rest), rest[:k])
 		rest = rest[k:]
 	}
+	st.hdrEnd = e.sentTotal + int64(e.wbuf.Len())
 	if !endStream {
 		st.out, st.outEnd = body, true
 	} else {
@@ -720,6 +727,40 @@ func (c *H2Client) onResponse(e *H2End, st *h2stream) {
 	rep.Tok, _ = m.Get("x-tok")
 	r.Replies = append(r.Replies, rep)
 	e.S.Logf("h2 client %s got reply stream=%d status=%d body=%dB in %d DATA frames", c.Name, st.id, m.Status, len(m.Body), st.dataSeen)
+}
+
+// Unsent is the number of body bytes of r the client still holds back (waiting for MOSN's credit).
+func (c *H2Client) Unsent(r *ReqRec) int {
+	for id, x := range c.byStream {
+		if x == r {
+			if st := c.streams[id]; st != nil {
+				return len(st.out)
+			}
+		}
+	}
+	return 0
+}
+
+// Knows: is r a request of this client?
+func (c *H2Client) Knows(r *ReqRec) bool {
+	for _, x := range c.byStream {
+		if x == r {
+			return true
+		}
+	}
+	return false
+}
+
+// HeadersDelivered: has the header block of r reached MOSN's socket?
+func (c *H2Client) HeadersDelivered(r *ReqRec) bool {
+	for id, x := range c.byStream {
+		if x == r {
+			if st := c.streams[id]; st != nil && c.Conn != nil {
+				return c.sentTotal-int64(c.Conn.PendingToMosn()) >= st.hdrEnd
+			}
+		}
+	}
+	return true
 }
 
 // ---------- upstream ----------
